@@ -241,7 +241,7 @@ def full_backward_fails(c):
     scale = max(float(np.abs(Ef).max()), float(np.abs(Hf).max()))
     if not scale > 1e-6:
         return f"vacuous scenario: the run produced no field (max {scale:.2e})"
-    for target, (Et, Ht) in ((k, (Ek, Hk)), (0, (z, z))):
+    for target, (Et, Ht) in ((k, (Ek, Hk)), (0, (z, z)))[:c.get("targets", 2)]:
         s0 = f.full_backward(state=st, objects=sc.objects, config=sc.config, key=key, record_detectors=False,
                              reset_fields=True, start_time_step=target)
         Eb, Hb = fields(s0)
@@ -411,6 +411,7 @@ def run(ctx):
             c["source"] = dict(kind="dipole_e", pol=1, axis=0, direction="+", amp=1.0,
                                pos=[c["spec"].get(Y.FACES[2 * a], 0) for a in range(3)])
         c["source"]["profile"] = "cw"
+        c["targets"] = ctx.scale(1, 2)   # quick: only the intermediate step (each target is one more jit compilation)
         d = full_backward_fails(c)
         ctx.impl_property_evals += 1
         ctx.case(nontrivial=("full_backward", c["seed"]), route="run_fdtd+full_backward")
